@@ -304,11 +304,10 @@ func startwithFunc(arg1, arg2 query) func(query, iterator) interface{} {
 		case string:
 			m = typ
 		case query:
-			node := typ.Select(t)
-			if node == nil {
-				return false
+			// An empty node-set converts to the empty string.
+			if node := typ.Select(t); node != nil {
+				m = node.Value()
 			}
-			m = node.Value()
 		default:
 			panic(errors.New("starts-with() function argument type must be string"))
 		}
@@ -331,11 +330,10 @@ func endwithFunc(arg1, arg2 query) func(query, iterator) interface{} {
 		case string:
 			m = typ
 		case query:
-			node := typ.Select(t)
-			if node == nil {
-				return false
+			// An empty node-set converts to the empty string.
+			if node := typ.Select(t); node != nil {
+				m = node.Value()
 			}
-			m = node.Value()
 		default:
 			panic(errors.New("ends-with() function argument type must be string"))
 		}
@@ -358,11 +356,10 @@ func containsFunc(arg1, arg2 query) func(query, iterator) interface{} {
 		case string:
 			m = typ
 		case query:
-			node := typ.Select(t)
-			if node == nil {
-				return false
+			// An empty node-set converts to the empty string.
+			if node := typ.Select(t); node != nil {
+				m = node.Value()
 			}
-			m = node.Value()
 		default:
 			panic(errors.New("contains() function argument type must be string"))
 		}
@@ -386,11 +383,10 @@ func matchesFunc(arg1, arg2 query) func(query, iterator) interface{} {
 		case string:
 			s = typ
 		case query:
-			node := typ.Select(t)
-			if node == nil {
-				return ""
+			// An empty node-set converts to the empty string.
+			if node := typ.Select(t); node != nil {
+				s = node.Value()
 			}
-			s = node.Value()
 		}
 		var pattern string
 		var ok bool
